@@ -698,6 +698,8 @@ impl LevelFilter {
     /// [collector]: super::Collect
     #[inline(always)]
     pub fn current() -> Self {
+        #[cfg(feature = "verif-hooks")]
+        crate::__verif::point("metadata.MAX_LEVEL.load");
         match MAX_LEVEL.load(Ordering::Relaxed) {
             Self::ERROR_USIZE => Self::ERROR,
             Self::WARN_USIZE => Self::WARN,
@@ -746,6 +748,8 @@ impl LevelFilter {
 
         // using an AcqRel swap ensures an ordered relationship of writes to the
         // max level.
+        #[cfg(feature = "verif-hooks")]
+        crate::__verif::point("metadata.MAX_LEVEL.swap");
         MAX_LEVEL.swap(val, Ordering::AcqRel);
     }
 }
